@@ -9,7 +9,6 @@ import (
 	"go/token"
 	"go/types"
 	"math/big"
-	"strings"
 )
 
 type unsupported struct{ msg string }
@@ -206,7 +205,7 @@ func (e *Engine) evalIdent(st *State, id *ast.Ident) Value {
 // globalVar: package-level variables are symbolic constants when never assigned after initialisation,
 // otherwise unknown at every read.
 func (e *Engine) globalVar(st *State, o *types.Var) Value {
-	if e.prog.globalsAssigned[o] || !strings.HasPrefix(o.Pkg().Path(), repoModule) && !isErrorType(o.Type()) {
+	if e.prog.globalsAssigned[o] {
 		if !isErrorType(o.Type()) {
 			e.noteAssumption("package variable " + o.Pkg().Name() + "." + o.Name() + " read as arbitrary value")
 			return e.symbolic(st, "g_"+o.Name(), o.Type())
@@ -242,6 +241,21 @@ func (e *Engine) globalVar(st *State, o *types.Var) Value {
 		}
 		e.noteAssumption("package-level error variables are non-nil, pairwise distinct and never reassigned")
 	}
+	if cv, ok := e.prog.globalConstInit[o]; ok {
+		// never assigned after its declaration: the variable still holds its constant initialiser
+		cval := e.constValue(st, cv, o.Type())
+		switch x := v.(type) {
+		case IntV:
+			if c, ok := cval.(IntV); ok && cv.Kind() == constant.Int {
+				e.assumeGlobal(Eq(x.t, c.t), "package variable holds its constant initialiser")
+			}
+		case BoolV:
+			if c, ok := cval.(BoolV); ok {
+				e.assumeGlobal(Eq(B2I(x.t), B2I(c.t)), "package variable holds its constant initialiser")
+			}
+		}
+	}
+	e.noteAssumption("package variables never assigned outside their declaration or their package's init() are constants")
 	e.globals[o] = v
 	e.globalOrder = append(e.globalOrder, o)
 	return v
